@@ -75,6 +75,23 @@ Theorem C05_fuel_suffices :
 Proof. exact C05_total_limit_lemma. Qed.
 Print Assumptions C05_fuel_suffices.
 
+(* The glue of Request._body: when the Transfer-Encoding header contains
+   "chunked" (any case, anywhere in the value) the body is read by the chunked
+   decoder WHATEVER Content-Length says (absent, 0, small, the raw length,
+   larger) — so all the theorems above apply to such requests unchanged. *)
+Theorem C05_chunked_overrides_content_length :
+  forall (s : stream) (buf : nat) (maxb : option nat) (cl : Z) (te : list N),
+    te_chunked te = true ->
+    body_read_env s buf maxb cl te = body_read_chunked s buf maxb.
+Proof. exact C05_chunked_overrides_cl_lemma. Qed.
+Print Assumptions C05_chunked_overrides_content_length.
+
+Example C05_te_chunked_nonvacuous :
+  te_chunked [103; 122; 105; 112; 44; 32; 67; 104; 117; 78; 75; 101; 100]%N = true   (* "gzip, ChuNKed" *)
+  /\ te_chunked [105; 100; 101; 110; 116; 105; 116; 121]%N = false                    (* "identity" *)
+  /\ te_chunked [] = false.
+Proof. vm_compute. repeat split. Qed.
+
 (* Hex round trip: int(b.strip(), 16) reads every spelling of n (k leading
    zeros, any per-digit case choice) back as n; and every plain hexadecimal
    numeral is read with its value. *)
